@@ -15,6 +15,7 @@
   implementation's counters are `uint64`, so the hypothesis holds there by typing.
 -/
 import Mhub2.Step
+import Mhub2.Generated.Facts
 import Lemmas.Ledger
 namespace Mhub2.C04
 open Mhub2
@@ -349,5 +350,11 @@ example : (runOps exOps).LedgerInv :=
 /-- The cancel in that history is a removal in the sense of `removal_only_by_cancel_or_end_block`. -/
 example : (3 ∈ ((runOps (exOps.take 7)).chain "e").ids ∧
     3 ∉ ((apply (runOps (exOps.take 7)) (.cancel "a" "e" 3)).1.chain "e").ids) := by decide +kernel
+
+/-- Tie to the code: in `cancelSendToExternal` the entry leaves the pool last — after the refund was minted and routed and the status
+    written — so a refund that fails (its error is dropped by the expiry sweep, which runs outside a transaction) leaves the transfer
+    where it was (the model's `cancelSte` is all-or-nothing). -/
+theorem fact_cancel_call_order : Generated.cancel_call_order =
+    "MintCoins,SendCoinsFromModuleToAccount,SendCoinsFromModuleToAccount,createSendToExternal,SetTxStatus,deleteUnbatchedSendToExternal" := rfl
 
 end Mhub2.C04
